@@ -118,6 +118,45 @@ def systems(draw, tier, nmax=None):
             "cap": draw(st.sampled_from([None, None, None] + list(range(0, n + 1))))}
 
 
+@st.composite
+def long_systems(draw, tier):
+    """Orders just past the blocking sizes 32 / 64: identity plus low rank (grade <= 3), or diagonally dominant
+    dense / sparse / banded matrices (well conditioned, a few cycles)."""
+    n = draw(st.sampled_from([33, 64, 65] if tier == "quick" else [33, 64, 65, 100, 129]))
+    cls = draw(st.sampled_from(["identity_plus_lowrank", "dominant_dense", "dominant_sparse", "dominant_banded"]))
+    if cls == "identity_plus_lowrank":
+        r = draw(st.integers(1, 2))
+        Xa, _ = draw(gen.long_qarray(n, r, "generic"))
+        Ya, _ = draw(gen.long_qarray(n, r, "generic"))
+        A = ref.qeye(n) + ref.qmm(Xa, ref.conjT(Ya)) / (8.0 * n)
+    else:
+        A, _ = draw(gen.long_qarray(n, n, "sparse" if cls == "dominant_sparse" else "generic"))
+        if cls == "dominant_banded":
+            idx = np.arange(n)
+            A = A * (np.abs(idx[:, None] - idx[None, :]) <= draw(st.sampled_from([1, 2, 5])))[..., None]
+        A = A / (2.0 * n)
+        rng = np.random.RandomState(draw(gen.seeds()))
+        d = rng.standard_normal((n, 4))
+        d = d / np.sqrt(np.sum(d * d, axis=1))[:, None]
+        for i in range(n):
+            A[i, i] = d[i] * (2.0 + (i % 3))
+    clsb = draw(st.sampled_from(["generic", "generic", "sparse_support", "zero"]))
+    if clsb == "generic":
+        b, _ = draw(gen.long_qarray(n, 1, "generic"))
+        if not b.any():
+            b[0, 0, 0] = 1.0
+    elif clsb == "sparse_support":
+        b = np.zeros((n, 1, 4))
+        b[draw(st.integers(0, n - 1)), 0] = draw(gen.nonzero_q())
+    else:
+        b = np.zeros((n, 1, 4))
+    e = draw(st.sampled_from([0, 0, -6, 6]))
+    return {"A": np.ascontiguousarray(A) * 10.0 ** e, "b": b * 10.0 ** e, "clsA": "long:" + cls, "clsb": clsb, "scale_exp": e,
+            "tol": 10.0 ** draw(st.integers(-10, -3)), "sparse": draw(st.booleans()),
+            "prec": draw(st.sampled_from([None, None, "left_lu"])),
+            "cap": draw(st.sampled_from([None, None, 1, 2, 5, 40]))}
+
+
 # ----------------------------------------------------------------------------
 # helpers
 
@@ -535,6 +574,7 @@ PROPERTY = Property(
           "uniformly scaled (c != 1), or a fault was injected."),
     clauses=[
         Clause("solve", check_solve, strategy=systems, budget={"quick": 500, "thorough": 6000}),
+        Clause("solve_long_dimension", check_solve, strategy=long_systems, budget={"quick": 16, "thorough": 160}, shrink=False),
         Clause("cycle_optimality", check_chain, strategy=chain_cases, budget={"quick": 150, "thorough": 2000}),
         Clause("invariance", check_invariance, strategy=invariance_cases, budget={"quick": 150, "thorough": 2000}),
         Clause("faults", check_fault, strategy=fault_cases, budget={"quick": 150, "thorough": 2000}),
